@@ -198,6 +198,7 @@ const IDX_VARIANTS: u64 = 8;
 const IDX_CLASSIC: u64 = 3;
 const EASY_VARIANTS: u64 = 10;
 const EASY_CLASSIC: u64 = 5;
+const IDX_REFUSE_VARIANTS: u64 = 3;
 const TYPES: u64 = 7; // typed cells: u8, i64/i32, String/String, (), u64/(), (u32,u32)/u128, u64/[u64;130]
 
 #[derive(Clone)]
@@ -310,6 +311,12 @@ fn make_cell(family: &str, variant: u64, aux: u64) -> Cell {
             let (_, twin, _) = mk(true);
             Cell { name: format!("GoldHashIdx/{}", name), status: "M+S", model: Some(ModelDesc::Idx { cap }), stub: false, map: Box::new(Idx::<CK>(m, aux, Some(twin))) }
         }
+        "idx_refuse" => {
+            // GoldHashIdx on a pool whose chunks (1024 bytes) are smaller than a value (1040 bytes): every insertion is refused
+            // ("Value does not fit into a chunk of the memory pool"); oracle only, see `history` (may_refuse)
+            let (name, map) = refusing_idx(variant, aux);
+            Cell { name, status: "S-only", model: None, stub: false, map }
+        }
         "small_u8" => Cell { name: "SmallMap<u8>/get_fast".into(), status: "M+S", model: Some(ModelDesc::SmallU8), stub: false, map: Box::new(SmU8(zipora::containers::specialized::SmallMap::new())) },
         "small" => {
             use zipora::containers::specialized::SmallMap as S;
@@ -393,6 +400,9 @@ fn history(cx: &mut Ctx, family: &str, variant: u64, aux: u64, ops: &[(u64, u64,
         Err(p) => { cx.sum.fail(&format!("{}/{}", family, variant), None, cj, &format!("constructor panicked: {}", p)); return; }
     };
     let name = cell.name.clone();
+    // refused operations inside histories: a cell whose insertions are refused by design (documented Err) carries on after
+    // the refusal; the shadow is unchanged by a refused step and every later answer is compared with it as usual
+    let may_refuse = family == "idx_refuse";
     let distinct_keys = { let mut ks: Vec<u64> = ops.iter().filter(|o| o.0 == 0).map(|o| o.1).collect(); ks.sort(); ks.dedup(); ks.len() };
     let has_rm_reinsert = big.is_none() && ops.iter().enumerate().any(|(i, o)| o.0 == 1 && ops[i + 1..].iter().any(|p| p.0 == 0 && p.1 == o.1));
     match big {
@@ -427,6 +437,7 @@ fn history(cx: &mut Ctx, family: &str, variant: u64, aux: u64, ops: &[(u64, u64,
         if c <= 4 { if let Some(hv) = m.key_hash(k0) { khash.push((k, hv)); } }
         let items: Vec<(u64, u64)> = if c == 10 { bulk_items(k0, v0).into_iter().map(|(a, b)| (m.canon_k(a), m.canon_v(b))).collect() } else { vec![] };
         let (rm, rr, radd) = (2 + k0 % 3, (k0 / 3) % (2 + k0 % 3), v0 % 2 == 1); // retain: keep the keys with key % rm != rr
+        let mut refused = false;
         let step: Result<Option<(String, Option<String>)>, String> = guarded(|| {
             // returns (coq observation, oracle complaint)
             match c {
@@ -434,6 +445,7 @@ fn history(cx: &mut Ctx, family: &str, variant: u64, aux: u64, ops: &[(u64, u64,
                     let want = shadow.get(&k).copied();
                     match r {
                         Ok(got) => (coq_on(got), if got != want { Some(format!("insert({},{}) returned {:?}, a map returns {:?}", k, v, got, want)) } else { None }),
+                        Err(_) if may_refuse => ("ORefused".to_string(), None),
                         Err(e) => ("OErr".to_string(), Some(format!("insert({},{}) returned Err({})", k, v, e))),
                     }
                 }),
@@ -469,7 +481,10 @@ fn history(cx: &mut Ctx, family: &str, variant: u64, aux: u64, ops: &[(u64, u64,
                     let absent = (0..300u64).map(|u| m.canon_k(u)).find(|u| !shadow.contains_key(u));
                     m.clone_swap(v, present, absent).map(|r| ("OMaint".to_string(), r.err().map(|e| format!("clone: {}", e))))
                 }
-                10 => m.bulk(&items, v).map(|r| ((if ext { "OUnit" } else { "OMut" }).to_string(), r.err().map(|e| format!("bulk insertion of {:?} returned Err({})", items, e)))),
+                10 => m.bulk(&items, v).map(|r| match r {
+                    // the first item of the batch is refused: nothing of the batch may be in the map
+                    Err(_) if may_refuse => ("ORefused".to_string(), None),
+                    r => ((if ext { "OUnit" } else { "OMut" }).to_string(), r.err().map(|e| format!("bulk insertion of {:?} returned Err({})", items, e))) }),
                 11 => m.alt_get(&[k0, k0.wrapping_add(1), k0.wrapping_add(16)], v).map(|got| {
                     let mut complaint = None;
                     for (key, ans, dflt) in got {
@@ -481,6 +496,7 @@ fn history(cx: &mut Ctx, family: &str, variant: u64, aux: u64, ops: &[(u64, u64,
                     let want = shadow.get(&k).copied().unwrap_or(v);
                     match r {
                         Ok(got) => (if ext && !idx_ext { format!("ORes (Some {})", got) } else { "OMut".to_string() }, if got != want { Some(format!("get_or_insert({},{}) = {}, a map yields {}", k, v, got, want)) } else { None }),
+                        Err(_) if may_refuse && !shadow.contains_key(&k) => ("ORefused".to_string(), None),
                         Err(e) => ("OMut".to_string(), Some(format!("get_or_insert({},{}) returned Err({})", k, v, e))),
                     } }),
                 13 => m.retain(rm, rr, radd).map(|_| ("OMut".to_string(), None)),
@@ -500,8 +516,10 @@ fn history(cx: &mut Ctx, family: &str, variant: u64, aux: u64, ops: &[(u64, u64,
             Ok(None) => { /* operation not offered by this type: skipped on both sides */
                 obs.push("OUnit".into()); offered.push(false); continue; }
             Ok(Some((term, complaint))) => {
-                let modelled = !matches!(term.as_str(), "OMaint" | "OMut" | "OAlt" | "OAltEmpty");
-                let empty_answer = matches!(term.as_str(), "ORes None" | "OBool false" | "OLen 0" | "OIter []" | "OUnit" | "OMaint" | "OMut" | "OAltEmpty");
+                refused = term == "ORefused";
+                if refused { cx.sum.dist("refused_operations_followed_up"); }
+                let modelled = !matches!(term.as_str(), "OMaint" | "OMut" | "OAlt" | "OAltEmpty" | "ORefused");
+                let empty_answer = matches!(term.as_str(), "ORes None" | "OBool false" | "OLen 0" | "OIter []" | "OUnit" | "OMaint" | "OMut" | "OAltEmpty" | "ORefused");
                 if !empty_answer { stub_like = false; }
                 if term == "OMaint" { maintained = true; }
                 if term == "OMut" && model_len.is_none() { model_len = Some(obs.len()); }
@@ -512,7 +530,8 @@ fn history(cx: &mut Ctx, family: &str, variant: u64, aux: u64, ops: &[(u64, u64,
             }
         }
         if ext && c == 10 && offered.last() == Some(&true) { expanded.insert(i, items.clone()); }
-        // the shadow map
+        // the shadow map (unchanged by a refused operation)
+        if refused { continue; }
         match c {
             0 => { ctr_total += 1; if !shadow.contains_key(&k) { ctr_unique += 1; } shadow.insert(k, v); }
             1 => { shadow.remove(&k); }
@@ -682,6 +701,24 @@ fn expand_big(d: &Value) -> Vec<(u64, u64, u64)> {
             ops.push((1, key(1), 0)); ops.push((9, 0, seed + 1)); ops.push((5, 0, 0)); ops.push((6, 0, 0)); ops.push((14, 0, seed + 3));
             for i in 0..n + 4 { ops.push((if i % 5 == 4 { 11 } else { 2 }, key(i), i)); }
         }
+        "refuse" => {
+            // operations that must leave the object as it was, each followed by a read-back: remove / get_mut / get /
+            // contains_key of an absent key (never present, removed before, on the empty and on the cleared object), a second
+            // remove, get_or_insert of a present key - and, on the cells whose insertions are refused by design, every
+            // insert / insert_batch
+            let readback = |ops: &mut Vec<(u64, u64, u64)>| { ops.push((5, 0, 0)); ops.push((6, 0, 0)); for i in 0..n + 3 { ops.push((2, key(i), 0)); } };
+            ops.push((1, key(0), 0)); ops.push((3, key(1), 5)); ops.push((0, key(0), 999)); ops.push((10, key(1), 3 + seed)); readback(&mut ops);
+            ops.push((0, key(0), 1000));
+            for i in 1..n { ops.push((0, key(i), 1000 + i)); if i % 4 == 1 { ops.push((1, key(n + i), 0)); ops.push((3, key(n + i), 7)); ops.push((5, 0, 0)); } }
+            readback(&mut ops);
+            for i in 0..n { if i % 3 == 1 { ops.push((1, key(i), 0)); ops.push((1, key(i), 0)); ops.push((3, key(i), 8)); ops.push((4, key(i), 0)); ops.push((2, key(i), 0)); ops.push((5, 0, 0)); } }
+            ops.push((12, key(0), 4242)); ops.push((12, key(2), 4243)); ops.push((11, key(n), seed)); ops.push((8, 0, seed));
+            readback(&mut ops);
+            ops.push((14, 0, seed)); ops.push((1, key(n + 1), 0)); ops.push((0, key(n + 2), 77)); ops.push((1, key(n + 2), 0)); ops.push((1, key(n + 2), 0)); ops.push((3, key(n + 2), 9));
+            readback(&mut ops);
+            ops.push((7, seed, 0)); ops.push((1, key(0), 0)); ops.push((3, key(0), 1)); ops.push((0, key(3), 5)); ops.push((10, key(4), seed));
+            readback(&mut ops);
+        }
         "sweep" => {
             for i in 0..n { ops.push((0, key(i), 1000 + i)); }
             ops.push((5, 0, 0));
@@ -769,6 +806,7 @@ fn all_cells(salt: u64) -> Vec<(&'static str, u64, u64)> {
     for t in 0..TYPES {
         for f in ["zip_t", "gold_t", "idx_t", "small_t", "easy_t"] { v.push((f, t, (salt + t) % N_HASHERS)); }
     }
+    for x in 0..IDX_REFUSE_VARIANTS { v.push(("idx_refuse", x, 0)); }
     v
 }
 
@@ -858,6 +896,10 @@ pub fn run(args: &Args) {
         if !args.thorough && si == 3 { continue; }
         for (fam, variant, aux) in all_cells(args.seed + si) { described(&mut cx, fam, variant, aux, "tour", n, si); }
     }
+    // (a') refused operations inside histories: the operations that must leave the object unchanged, on every cell
+    for (si, n) in [(0u64, 10u64), (1, 23), (2, 7)] {
+        for (fam, variant, aux) in all_cells(args.seed + si) { described(&mut cx, fam, variant, aux, "refuse", n, si); }
+    }
     // (b) threshold sweeps: fills that end exactly at / one before / one after the internal switch points
     //     (SmallMap 8; tables of 16/32/64 slots; load factors 0.7 / 0.75 of 16, 64, 97, 1024, 1741; 255/256; 1023..1025; 4095..4097)
     let sweep_ns: &[u64] = if args.thorough { &[7, 8, 9, 11, 12, 13, 15, 16, 17, 31, 32, 33, 47, 48, 49, 63, 64, 65, 67, 68, 96, 97, 255, 256, 257, 716, 717, 768, 769, 1023, 1024, 1025, 1218, 1219, 4095, 4096, 4097] }
@@ -929,6 +971,8 @@ pub fn run(args: &Args) {
             history(&mut cx, "easy", variant, rng.below(4), &ops, room && (variant + i) % 5 == 2 && ops.len() <= 120, None);
         }
         history(&mut cx, "str", i % 3, 0, &ops, room && i % 2 == 0, None);
+        // every insertion refused, the history carries on
+        if ops.len() <= 150 { history(&mut cx, "idx_refuse", i % IDX_REFUSE_VARIANTS, 0, &ops, false, None); }
         // rarely used key / value types: one type per round on every map family
         let ty = i % TYPES;
         for fam in ["zip_t", "gold_t", "idx_t", "small_t", "easy_t"] {
